@@ -104,7 +104,7 @@ func Config(r *graph.Real) *traversal.Config {
 	}
 	// callers pass fully populated and partly defaulted configurations alike: the context is set for graphs
 	// with an odd number of blocks (a deterministic function of the case) and left to the default otherwise
-	if r.Mem != nil && len(r.Mem.Bag)%2 == 1 {
+	if r.NBlocks%2 == 1 {
 		cfg.Ctx = context.WithValue(context.Background(), ctxKey{}, "verif")
 	}
 	return cfg
